@@ -273,6 +273,17 @@ def run(ctx, spec):
             ctx.count('streams_crossing_the_clock_wrap')
         st = streams.build(rng, cands, k=k, n_each=tuple(spec['len']), tagged=(k > 1 or rng.random() < 0.3),
                            opts={'big_gaps': rng.choice([0.3, 0.6]) if not wrap else 0.02, 'equal_times': 0.1, 'thresh': rng.choice([0.1, 0.3]), 'backsteps': back, 'wrap': wrap}, t0=t0)
+        if not wrap and rng.random() < 0.12:
+            # another producer's spelling of the same number of milliseconds: more fraction digits (zeros appended), or no trailing
+            # zeros (`350.9` for `350.900`).  The value, and with it everything shown, is unchanged
+            how = rng.choice(['pad4', 'pad6', 'strip'])
+            for e in st['entries']:
+                m = re.match(r'\[\s*(\d+)([.,])(\d{3})\]', e['line'])
+                frac = m.group(3) + {'pad4': '0', 'pad6': '000', 'strip': ''}[how]
+                if how == 'strip':
+                    frac = frac.rstrip('0') or '0'
+                e['line'] = '[%s%s%s]' % (m.group(1), m.group(2), frac) + e['line'][m.end():]
+            ctx.count('streams_with_another_number_of_fraction_digits')
         prefix = None
         if rng.random() < 0.12:
             # the log as a journal / a supervisor hands it on: every line behind that tool's own stamp (a bracketed number
@@ -319,8 +330,8 @@ def finalize(m):
 def times_of(lines):
     out = []
     for l in lines:
-        m = re.match(r'\[\s*(\d+)[.,](\d{3})\]', l)
-        out.append(int(m.group(1)) * 1000 + int(m.group(2)))
+        m = re.match(r'\[\s*(\d+)[.,](\d{1,6})\]', l)
+        out.append(int(m.group(1)) * 1000 + int((m.group(2) + '00')[:3]))
     return out
 
 
